@@ -50,6 +50,11 @@ inductive Weight where
   | scalar (w : Rat)
   | array (shape : List Nat) (f : List Nat → Rat)
 
+/-- value of a (broadcast) weight at a voxel -/
+def Weight.at : Weight → List Nat → Rat
+  | .scalar w, _ => w
+  | .array _ f, idx => f idx
+
 def prodRat : List Rat → Rat
   | [] => 1
   | x :: xs => x * prodRat xs
@@ -80,6 +85,10 @@ def Weight.mul : Weight → Weight → Except Err Weight
   | .scalar a, .array s f => .ok (.array s fun i => a * f i)
   | .array s f, .scalar b => .ok (.array s fun i => f i * b)
   | .array s f, .array t g => if s = t then .ok (.array s fun i => f i * g i) else .error .value
+
+/-- `ExtrudedGeometry(expansion, …)` and `PorousGeometry(porosity, …)` are `WeightedGeometry` with that weight -/
+def Geo.extruded (expansion : Weight) := Geo.weighted expansion
+def Geo.porous (porosity : Weight) := Geo.weighted porosity
 
 def Geo.extrudedPorous (porosity depth : Weight) (dim : Nat) (numVoxels : List Nat) (dimensions : List Rat) :
     Except Err Geo := do
